@@ -898,7 +898,7 @@ def run(ctx):
     extra.update({
         'routes_in_url_map': len(rules), 'routes_under_v1_peer': len([r for r in rules if r['rule'].startswith('/v1/peer/')]),
         'methods': METHODS, 'credential_variants': CRED_KINDS,
-        'states': sorted(EXPECTED_FSM), 'fsm_states_covered': sorted(set(EXPECTED_FSM.values())),
+        'session_state_names': sorted(EXPECTED_FSM), 'fsm_states_covered': sorted(set(EXPECTED_FSM.values())),
         'configurations': sorted(CONFIGS), 'update_bodies': len(spaces[0]), 'binary_bodies': len(spaces[1]),
         'route_refresh_bodies': len(spaces[2]), 'coq_case_files': len(shards), 'send_event_traces': len(traces),
     })
